@@ -77,20 +77,23 @@ def attrVal : Option String → String
   | none => ""
   | some s => s
 
+/-- text of the (single) `<body/>` child of an inner message; no such child leaves `d->body` empty -/
+def bodyVal : Option String → String
+  | none => ""
+  | some s => s
+
 /-- `QXmppMessage::parse` on the inner element (QXmppStanza::parse for id/from/to, `body` child text),
 followed by `setCarbonForwarded(true)` -/
 def forwardedMsg (n : MsgNode) : Msg :=
-  { id := attrVal n.id, sender := attrVal n.sender, to := attrVal n.to, body := attrVal n.body,
+  { id := attrVal n.id, sender := attrVal n.sender, to := attrVal n.to, body := bodyVal n.body,
     carbonForwarded := true }
 
 /-- text of the last child whose tagName is `body` (QXmppMessage::parseExtensions visits the children in
-order, every `body` overwrites `d->body`; the namespace is not looked at) -/
-def lastBody : List Child → String
-  | [] => ""
-  | c :: rest =>
-    let r := lastBody rest
-    if rest.any (fun d => d.tag == "body") then r
-    else if c.tag == "body" then c.text else r
+order, every `body` overwrites `d->body`; the namespace is not looked at); empty when there is none -/
+def lastBody (kids : List Child) : String :=
+  match (kids.filter (fun c => c.tag == "body")).getLast? with
+  | some c => c.text
+  | none => ""
 
 /-- ordinary parse of the outer stanza as a message (`QXmppMessage::parse`), flag not set -/
 def parseOuter (o : Outer) : Msg :=
@@ -241,15 +244,19 @@ inductive Op
 
 def init : St := { gen := .v2, own := "" }
 
-def step (s : St) : Op → St × List Ev
+/-- one output record per stanza -/
+def step (s : St) : Op → St × List Res
   | .configure g own => ({ gen := g, own := own }, [])
-  | .stanza o => (s, (handle s.gen s.own o).events)
+  | .stanza o => (s, [handle s.gen s.own o])
 
-def run (s : St) : List Op → St × List Ev
+def run (s : St) : List Op → St × List Res
   | [] => (s, [])
   | op :: ops =>
     let r1 := step s op
     let r2 := run r1.1 ops
     (r2.1, r1.2 ++ r2.2)
+
+/-- everything that surfaced in the application during a history -/
+def presented (rs : List Res) : List Ev := rs.flatMap (·.events)
 
 end Qx.C11
